@@ -126,6 +126,18 @@ CHECKS["C04"] = {
             "(cloudwatch through the package's client interface); a test process killed inside gostatsd code is attributed to C04",
     "technique": "TLC shape/index invariants + TLC-enumerated aggregate states replayed through aggregator and all backend payload builders",
 }
+CHECKS["C18"] = {
+    "text": "AlignedTicker.tla models the ticker goroutine's two phases, the mock clock's firing rule, the capacity-1 non-blocking "
+            "send and the flusher's lastFlush arithmetic over integer time, composed with the AlignedProp monitor (aligned, not in the "
+            "future, increasing, first within one interval of start-up, later deltas positive multiples); TLC checks every interleaving "
+            "of clock jumps and goroutine steps for several (interval, offset, start) and refutes a round-up variant. TLC-generated "
+            "schedules drive the real AlignedTicker on a jumping mock clock and the real MetricFlusher (smooth and mock clock); TLC "
+            "validates the recorded traces.",
+    "design_ref": "6/C18",
+    "note": "start-up is the instant the ticker reads the clock; on the mock clock only tick values / elapsed times are meaningful, the "
+            "clock reading at the invocation is compared only when time moves without jumps",
+    "technique": "TLC design check of the ticker model + TLC trace validation of real ticker / flusher runs under TLC-generated clock schedules",
+}
 NOT_APPLICABLE = [{"property_id": p, "reason": "check not built yet (build in progress; see DESIGN.md Appendix B for the order)"}
                   for p in ALL if p not in CHECKS]
 ENGINES[0]["serves_properties"] = sorted(CHECKS)
